@@ -1715,6 +1715,10 @@ outer:
 		if len(a.Elements) == len(b.Elements) && a.Inverted != b.Inverted {
 			return false
 		}
+		if len(a.Elements) < len(b.Elements) && a.Inverted {
+			// the longer sequence needs the match that the shorter one excludes
+			return false
+		}
 		*dcs = append((*dcs)[:i-1], (*dcs)[i:]...)
 		i--
 	}
